@@ -40,7 +40,11 @@ Universe == {
   Ev("k3", "b", 5, 4, <<Tg("e", "r1"), Tg("a", "30000:a:x")>>), \* foreign targets
   Ev("k4", "a", 5, 4, <<Tg("e", "k1")>>),                       \* a deletion request
   Ev("k5", "a", 5, 4, <<Tg("e", "p2"), Tg("e", "x3")>>),        \* replaceable / addressable by id
-  Ev("k6", "a", 5, 1, <<Tg3("e", "r2")>>)                       \* reference with a relay hint
+  Ev("k6", "a", 5, 1, <<Tg3("e", "r2")>>),                      \* reference with a relay hint
+  Ev("k8", "a", 5, 1, <<Tg("e", "r1")>>),                       \* a second, older request for the same target
+  Ev("k9", "b", 5, 4, <<Tg("e", "p2"), Tg("e", "x2")>>),        \* foreign replaceable / addressable by id
+  \* a repeated tag followed by another one (index maintenance)
+  Ev("r5", "b", 1, 3, <<Tg("t", "z"), Tg("t", "z"), Tg("p", "c")>>)
 }
 
 ById(i) == CHOOSE e \in Universe : e.id = i
